@@ -33,4 +33,14 @@ Has(e, f) == f \in DOMAIN e
 \* one finding: the trace line, the property (or "L2" for a conformance difference), a short reason
 Finding(line, prop, why) == [line |-> line, prop |-> prop, why |-> why]
 Check(cond, line, prop, why) == IF cond THEN <<>> ELSE <<Finding(line, prop, why)>>
+\* C19: the recorded extents of every unchecked access site
+AccFindings(E, line) ==
+  IF ~Has(E, "acc") THEN <<>>
+  ELSE LET A == E.acc IN
+       Check(A.matrix.oob = 0 /\ (A.matrix.n > 0 => A.matrix.max_row < A.matrix.size /\ A.matrix.max_col < A.matrix.size
+                                                    /\ A.matrix.size * A.matrix.size <= A.matrix.raw),
+             line, "C19", "distance matrix accessed outside its current dimension")
+    \o Flatten([k \in DOMAIN A.sites |->
+         Check(A.sites[k].oob = 0 /\ A.sites[k].max < A.sites[k].len, line, "C19", "unchecked access out of range")])
+
 =============================================================================
